@@ -16,7 +16,7 @@ Tr == ndJsonDeserialize(IOEnv.TRACE_FILE)
 N == Len(Tr)
 VARIABLES l, sc, s, cnt
 Tags(conds) == { c[2] : c \in { x \in conds : x[1] } }
-S0 == [added |-> {}, done |-> {}, closed |-> {}, inh |-> {}, lclosed |-> FALSE, cancelled |-> FALSE, ret |-> FALSE,
+S0 == [added |-> {}, done |-> {}, closed |-> {}, inh |-> {}, lclosed |-> FALSE, cancelled |-> FALSE, opclosed |-> FALSE, ret |-> FALSE,
        now |-> 0, dl0 |-> << >>, fresh |-> {}, bad |-> {}]
 Get(f, k, d) == IF k \in DOMAIN f THEN f[k] ELSE d
 Put(f, k, v) == [x \in DOMAIN f \cup {k} |-> IF x = k THEN v ELSE f[x]]
@@ -30,7 +30,7 @@ Step(e) ==
                                     !.bad = @ \cup Tags({ << s.ret, "C17" >> })]            \* a handler starting after Serve returned
      [] e.e = "hend"   -> [s EXCEPT !.inh = @ \ {e.c}]
      [] e.e = "lclose" -> [s EXCEPT !.lclosed = TRUE]
-     [] e.e = "env"    -> [s EXCEPT !.cancelled = @ \/ e.op = "cancel", !.now = IF e.op = "tick" THEN e.now + e.c ELSE @]
+     [] e.e = "env"    -> [s EXCEPT !.cancelled = @ \/ e.op = "cancel", !.opclosed = @ \/ e.op = "lclose", !.now = IF e.op = "tick" THEN e.now + e.c ELSE @]
      [] e.e = "arm"    -> [s EXCEPT !.bad = @ \cup Tags({ << ~e.finite, "C17" >> }),
                                     \* the deadline armed for the packet now awaited (re-arming while it is awaited does not move it)
                                     !.dl0 = IF e.c \in s.fresh THEN Put(@, e.c, e.dl) ELSE @,
@@ -42,7 +42,7 @@ Step(e) ==
                                                           << s.added \ s.done # {}, "C17" >>,      \* Serve returned while a connection goroutine was still running
                                                           << s.added \ s.closed # {}, "C17" >>,    \* ... or a connection still open
                                                           << s.inh # {}, "C17" >>,                 \* ... or a handler still running
-                                                          << ~s.cancelled, "C14" >> })]            \* the accept loop gave up without being told to
+                                                          << ~s.cancelled /\ ~s.opclosed, "C14" >> })]   \* the accept loop gave up without being told to
      [] e.e = "fin"    -> [s EXCEPT !.bad = @ \cup Tags({ << e.gs < 0 \/ e.gh < 0 \/ e.ga < 0 \/ e.gr < 0, "C20" >>,
                                                           << e.returned /\ (e.gs # 0 \/ e.gh # 0 \/ e.ga # 0 \/ e.gr # 0), "C20" >> })]
      [] OTHER -> s
